@@ -90,4 +90,26 @@ def run(ck):
     conn = facts.enum_with("COMPLETE_PERSISTENT_MSG")
     ck.require_fact("B5.persistent-only-after-whole-request", ck.flow(sic), ev_return(E.m_const(conn["COMPLETE_PERSISTENT_MSG"])), E.m_is_mem("request_sent"), True,
                     "return COMPLETE_PERSISTENT_MSG", why="(an early complete reply would return a server connection to the pool while the request body is still being relayed)")
+    ck.rule("B6 ConnStateData::handleRequestBodyData (identity bodies): the bytes offered to the body pipe are the front of inBuf (rawContent(), length()); inBuf is "
+            "consumed by exactly the amount bodyPipe->putMoreData() accepted, and only that; bodyPipe is dropped only when the pipe says it needs no more data")
+    hb = facts.fn("ConnStateData::handleRequestBodyData")
+    hfl = ck.flow(hb)
+    put = ck.m_result_of(hb, "BodyPipe::putMoreData")
+    for st in ck.sites(hfl, ev_call("BodyPipe::putMoreData"), "bodyPipe->putMoreData()", 1):
+        a = E.strip(st.ev["x"])["a"]
+        src_ok = len(a) == 2 and any(n.get("f") == "SBuf::rawContent" and E.m_is_mem("inBuf")(n.get("o")) for n in E.walk(a[0])) and \
+            any(n.get("f") == "SBuf::length" and E.m_is_mem("inBuf")(n.get("o")) for n in E.walk(a[1]))
+        if src_ok:
+            ck.ok("B6.identity-body-accounting", st.where(), "putMoreData(inBuf.rawContent(), inBuf.length())")
+        else:
+            ck.violation("B6.identity-body-accounting", "B6|handleRequestBodyData|put-args", st.where(), "the request body is fed to the pipe from %s" % [E.key(x)[:60] for x in a])
+    for st in ck.sites(hfl, ev_call("ConnStateData::consumeInput"), "consumeInput()", 1):
+        a0 = E.strip(st.ev["x"])["a"][0]
+        if put(a0):
+            ck.ok("B6.identity-body-accounting", st.where(), "consumeInput(<what putMoreData accepted>)")
+        else:
+            ck.violation("B6.identity-body-accounting", "B6|handleRequestBodyData|consume-arg", st.where(),
+                         "inBuf is consumed by %s, not by the amount bodyPipe->putMoreData() accepted: body bytes are lost or sent twice when the pipe is full" % E.key(a0))
+    ck.require_fact("B6.pipe-dropped-when-satisfied", hfl, ev_call("RefCount::operator=", obj=E.m_is_mem("ConnStateData::bodyPipe"), arg={0: E.M(lambda t: E.strip(t).get("k") == "null", "nullptr")}),
+                    E.m_calls("BodyPipe::mayNeedMoreData"), False, "bodyPipe = nullptr", why="(the body would be declared produced while the pipe still expects data)")
     ck.assume("byte equality across packets and 100-continue timing are not decided")
